@@ -151,6 +151,17 @@ def field_format_pairs():
     mk = lambda m: "%s::S(%s, %s, %s)" % (m, P % "i0", P % "i1", P % "i2")  # noqa
     out.append(Shape("c06_flat_field_format_tuple", module(dm, sd, pair_harness("same_as_std_debug", mk, 3)), H(), dm.replace("\n", " "),
                      exercises=["impl/src/fmt/debug.rs::Expansion::generate_body (field attributes)"], crate_attrs=CRATE_ATTRS))
+    # a field-level attribute that is exactly one bare `{:?}` placeholder still *replaces the value by the formatted literal*: the field is
+    # formatted inside format_args!, under default options, whatever the caller's spec (seed C06-field-debug-placeholder-passes-field-through)
+    dm = ("#[derive(derive_more::Debug)]\npub struct B(#[debug(\"{_0:?}\")] pub Probe, #[debug(\"{:?}\", _0)] pub Probe, pub Probe);\n"
+          "#[derive(derive_more::Debug)]\npub struct BN { #[debug(\"{a:?}\")] pub a: Probe, #[debug(\"{p:?}\", p = a)] pub b: Probe }")
+    sd = ("pub struct B(pub Probe, pub Probe, pub Probe);\nimpl fmt::Debug for B {\n    fn fmt(&self, f: &mut fmt::Formatter<'_>) -> fmt::Result {\n"
+          "        f.debug_tuple(\"B\").field(&format_args!(\"{:?}\", self.0)).field(&format_args!(\"{:?}\", self.0)).field(&self.2).finish()\n    }\n}\n"
+          "pub struct BN { pub a: Probe, pub b: Probe }\nimpl fmt::Debug for BN {\n    fn fmt(&self, f: &mut fmt::Formatter<'_>) -> fmt::Result {\n"
+          "        f.debug_struct(\"BN\").field(\"a\", &format_args!(\"{:?}\", self.a)).field(\"b\", &format_args!(\"{:?}\", self.a)).finish()\n    }\n}")
+    mk = lambda m: "(%s::B(%s, %s, %s), %s::BN { a: %s, b: %s })" % (m, P % "i0", P % "i1", P % "i2", m, P % "i1", P % "i0")  # noqa
+    out.append(Shape("c06_flat_field_format_bare_debug", module(dm, sd, pair_harness("same_as_std_debug", mk, 3)), H(), dm.replace("\n", " "),
+                     exercises=["impl/src/fmt/debug.rs::Expansion::generate_body (field attributes)"], crate_attrs=CRATE_ATTRS))
     dm = "#[derive(derive_more::Debug)]\npub struct N { #[debug(\"{a}{{\")] pub a: Probe, pub b: Probe, #[debug(skip)] pub c: Probe, #[debug(\"{:>+5.1}\", self.b)] pub d: Probe }"
     sd = ("pub struct N { pub a: Probe, pub b: Probe, pub c: Probe, pub d: Probe }\nimpl fmt::Debug for N {\n    fn fmt(&self, f: &mut fmt::Formatter<'_>) -> fmt::Result {\n"
           "        f.debug_struct(\"N\").field(\"a\", &format_args!(\"{}{{\", self.a)).field(\"b\", &self.b).field(\"d\", &format_args!(\"{:>+5.1}\", self.b)).finish_non_exhaustive()\n    }\n}")
